@@ -362,6 +362,43 @@ pub fn run(ctx: &RunCtx) -> i32 {
             json!({"config": cfg.show(), "depth": st.depth_completed, "states": st.states, "transitions": st.transitions})
         })
         .collect();
+    // many requests carrying the violated marker at once (N = 40; thorough also 70, 130, 260): every request gets a response
+    // under another password, in order and again in reverse order; each of those rejected buffers may add its own marker
+    // and must leave every other marker (and everything else) alone; then all time out
+    {
+        let ns: Vec<usize> = if thorough { vec![40, 70, 130, 260] } else { vec![40] };
+        ns.par_iter().for_each(|n| {
+            let cfg = Cfg { transport: Transport::Unreliable { rto_ms: 100, gran_ms: 1, rm: 2, rc: 1 }, mech: Mech::ShortTerm(Some(false)), fingerprint: false, max_tx: *n, cred: 0, method: 1 };
+            let mut r = Report::new();
+            let proto = Mon::new(*n);
+            let mut run = explore::start(&cfg, &apps, &proto);
+            let mut hist: Vec<Event> = vec![];
+            let mut evs: Vec<Event> = (0..*n).map(|_| Event::Send { app: 0 }).collect();
+            let bad = Reply::plain(RClass::Success).with_mac(RMac::MiOtherPass);
+            evs.extend((0..*n).map(|i| Event::Deliver { to: Target::Req(i), reply: bad }));
+            evs.extend((0..*n).rev().map(|i| Event::Deliver { to: Target::Req(i), reply: Reply::plain(RClass::Error(400)).with_mac(RMac::BadMi) }));
+            evs.push(Event::AdvanceTo(300 * super::world::MS));
+            evs.push(Event::Timer);
+            for ev in evs {
+                hist.push(ev.clone());
+                let h = hist.clone();
+                let o = explore::step(&mut run, &ev, Some((&mut r, &h)));
+                r.transitions += 1;
+                if let Event::Timer = ev {
+                    let pv = o.events.iter().filter(|e| matches!(e, OEv::Failed(_, Reason::ProtectionViolated))).count();
+                    if pv != *n {
+                        r.violate(
+                            "marked-request-does-not-end-protection-violated/many-marked",
+                            format!("{} of {} requests ended ProtectionViolated", pv, n),
+                            json!({"config": cfg.show(), "requests": n, "what": "every request got two responses failing authentication; all time out in one call"}),
+                        );
+                    }
+                }
+            }
+            r.sym("many-marked-requests");
+            shared.merge(r);
+        });
+    }
     let mut rep = shared.into_inner();
     rep.extra.insert("per_config".into(), json!(per));
     let _ = (FinalKind::Retry, Reason::TimedOut);
@@ -370,9 +407,9 @@ pub fn run(ctx: &RunCtx) -> i32 {
         rep,
         Finish {
             level: "model_checking",
-            rule: format!("breadth-first exploration of the real client to depth {} for 8 transport x mechanism x fingerprint configurations (limit 3) over {{Send, Timer, AdvanceTo, Deliver(accepted reply kinds of the mechanism incl. 401 / 438 challenges), every rejected-buffer kind: undecodable (garbage, truncated), request class, reply for an unknown id, reply for a finished id, bad / missing / misplaced FINGERPRINT, a wrong FINGERPRINT followed by a decoy attribute or by a second FINGERPRINT, auth-failing response on unreliable transport (corrupted, absent, other password), both-MACs response, wrong-algorithm response, 401 without realm / nonce, 438 without nonce, an error response without ERROR-CODE (5 integrity variants), a long-term success response with both MACs, complete 401 / 438 challenges (new realm / nonce / algorithms) whose own integrity attribute fails, indication failing authentication / without integrity}}. A buffer of a kind the statement lists as rejected (undecodable bytes, a request, a response for an unknown or finished id, a bad / missing fingerprint) that is accepted is a violation in itself. Direct oracle on every transition whose call returned Err: no events and a byte-identical canonical snapshot before/after, the only tolerated change being one added violated marker for a response on unreliable transport with credentials. Differential oracle at every visited state: a fixed continuation (all outstanding requests driven to their final outcome by the pending deadlines, one more exchange, RTO of the new request, final snapshot) is run with and without each rejected kind inserted and must produce identical observations (only TimedOut -> ProtectionViolated for the affected request may differ)", depth),
+            rule: format!("breadth-first exploration of the real client to depth {} for 8 transport x mechanism x fingerprint configurations (limit 3) over {{Send, Timer, AdvanceTo, Deliver(accepted reply kinds of the mechanism incl. 401 / 438 challenges), every rejected-buffer kind: undecodable (garbage, truncated), request class, reply for an unknown id, reply for a finished id, bad / missing / misplaced FINGERPRINT, a wrong FINGERPRINT followed by a decoy attribute or by a second FINGERPRINT, auth-failing response on unreliable transport (corrupted, absent, other password), both-MACs response, wrong-algorithm response, 401 without realm / nonce, 438 without nonce, an error response without ERROR-CODE (5 integrity variants), a long-term success response with both MACs, complete 401 / 438 challenges (new realm / nonce / algorithms) whose own integrity attribute fails, indication failing authentication / without integrity}}. A buffer of a kind the statement lists as rejected (undecodable bytes, a request, a response for an unknown or finished id, a bad / missing fingerprint) that is accepted is a violation in itself. Direct oracle on every transition whose call returned Err: no events and a byte-identical canonical snapshot before/after, the only tolerated change being one added violated marker for a response on unreliable transport with credentials. A directed run with 40 (thorough up to 260) requests outstanding, each rejected twice for failing authentication, checks that a rejection touches no marker but its own. Differential oracle at every visited state: a fixed continuation (all outstanding requests driven to their final outcome by the pending deadlines, one more exchange, RTO of the new request, final snapshot) is run with and without each rejected kind inserted and must produce identical observations (only TimedOut -> ProtectionViolated for the affected request may differ)", depth),
             assumptions: vec!["the feature-gated snapshot renders every field of StunClient except the stateless encoder / decoder".into()],
-            required_symbols: vec!["bfs-configs", "rejected-and-unchanged", "marker-exception", "continuation-identical", "undecodable-garbage", "request-class", "reply-for-unknown-id", "reply-for-finished-id", "bad-fingerprint", "missing-fingerprint", "both-macs-response", "wrong-algorithm-response", "401-without-realm", "438-without-nonce", "401-failing-auth-unreliable", "438-failing-auth-unreliable", "error-response-without-error-code", "indication-failing-auth"],
+            required_symbols: vec!["bfs-configs", "rejected-and-unchanged", "marker-exception", "continuation-identical", "undecodable-garbage", "request-class", "reply-for-unknown-id", "reply-for-finished-id", "bad-fingerprint", "missing-fingerprint", "both-macs-response", "wrong-algorithm-response", "401-without-realm", "438-without-nonce", "401-failing-auth-unreliable", "438-failing-auth-unreliable", "error-response-without-error-code", "indication-failing-auth", "many-marked-requests"],
             min_outcomes: 8,
             exhaustive: true,
             bounds: json!({"depth": depth}),
